@@ -336,9 +336,12 @@ func FilterPMTPacketsToPids(packets []*packet.Packet, pids []int) ([]*packet.Pac
 
 	pmtPid := packet.Pid(packets[0])
 	var missingPids []int
+	present := 0
 	for _, pid := range pids {
 		// Ignore PAT and PMT PIDS if they are included.
-		if !unfilteredPMT.PIDExists(pid) && pid != PatPid && pid != pmtPid {
+		if unfilteredPMT.PIDExists(pid) {
+			present++
+		} else if pid != PatPid && pid != pmtPid {
 			missingPids = append(missingPids, pid)
 		}
 	}
@@ -350,7 +353,8 @@ func FilterPMTPacketsToPids(packets []*packet.Packet, pids []int) ([]*packet.Pac
 	}
 
 	// Return nil packets and an error if none of the PIDs being filtered exist in the PMT.
-	if len(missingPids) == len(pids) {
+	// (the ignored PAT and PMT PIDs do not count as present)
+	if len(missingPids) > 0 && present == 0 {
 		return nil, returnError
 	}
 
